@@ -23,10 +23,11 @@ func init() {
 			"(R8) error discipline over package database/record: " + repoErrText + ". " +
 			"(R9) ParseKey splits a key at its first colon only: the database-key part is everything after it (colons inside the key are data), so the key of a parsed record equals the key it was stored under. " +
 			"(R10) sibling agreement (A14): the paired functions consist of the same operations - calls with their constant arguments, comparisons (canonical under negation and operand order), field reads/writes, channel operations, returns, each with the number of conditions it depends on - once the instance-specific names are mapped onto each other; logging is ignored, named differences are listed in the table: Base.MarshalRecord ~ Wrapper.MarshalRecord (typed and wrapped records get the same storage envelope). " +
+			"(R11) the format-identifier codec reports the bytes it used (= C10-R1, Unpack8). " +
 			"NOT decided: round-trip equality for all records, totality of the third-party codecs.",
 		Rules: []ruleFn{c08R1, c08R2, c08R3, c08R4, func(c *Ctx, r *Report) { blockReaderRule(c, r, "C08-R5") }, c08R6, func(c *Ctx, r *Report) { deletedFirstRule(c, r, "C08-R7") },
 			repoErrRuleFor("C08-R8", 6, func(c *Ctx, fn *ssa.Function) bool { return short(fn.Pkg.Pkg.Path()) == "database/record" }, map[string]string{}),
-			c08R9, func(c *Ctx, r *Report) { siblingRule(c, r, "C08-R10", sibRecord) }},
+			c08R9, func(c *Ctx, r *Report) { siblingRule(c, r, "C08-R10", sibRecord) }, borrowRule(c10R1, "C10-R1", "C08-R11", 2, nil)},
 	})
 }
 
